@@ -20,7 +20,32 @@ func mutate(rng *Rng, s string) string {
 			continue
 		}
 		i := rng.Intn(len(b))
-		switch rng.Intn(6) {
+		switch rng.Intn(8) {
+		case 6: // change the case of one letter
+			if b[i] >= 'a' && b[i] <= 'z' {
+				b[i] -= 32
+			} else if b[i] >= 'A' && b[i] <= 'Z' {
+				b[i] += 32
+			}
+		case 7: // change the case of the whole word around i
+			lo, hi := i, i
+			for lo > 0 && b[lo-1] != ' ' {
+				lo--
+			}
+			for hi < len(b) && b[hi] != ' ' {
+				hi++
+			}
+			up := rng.Bool()
+			for k := lo; k < hi; k++ {
+				if up && b[k] >= 'a' && b[k] <= 'z' {
+					b[k] -= 32
+					if !rng.Chance(70) {
+						break // only the initial: Depth, Movetime
+					}
+				} else if !up && b[k] >= 'A' && b[k] <= 'Z' {
+					b[k] += 32
+				}
+			}
 		case 0:
 			b[i] = alphabet[rng.Intn(len(alphabet))]
 		case 1:
